@@ -235,7 +235,57 @@ def r17b(P, R):
     R.floor("R17-b", "functions scanned", len(P.fns), 1000)
 
 
-RULES = [("R17-a", r17a), ("R17-b", r17b)]
+ORDER_DEP = {"find", "find_map", "position", "rposition", "next", "first", "last", "nth", "take", "skip", "take_while", "skip_while",
+             "min_by_key", "max_by_key", "min_by", "max_by", "reduce", "fold", "try_fold", "rev", "zip", "enumerate", "step_by", "nth_back",
+             "next_back", "peekable", "scan", "map_while"}
+
+
+def r17c(P, R):
+    """verdict does not depend on the order of schema definitions: in the checker, an iteration in schema-definition order
+    (Schema::iter_types / iter_directives and wrappers returning them) never ends in an order-dependent consumer"""
+    srcs = {"graphql_type_system::schema::Schema::iter_types", "graphql_type_system::schema::Schema::iter_directives",
+            "nitrogql_printer::utils::interface_implementers"}
+    n = 0
+    for f in P.fns.values():
+        if f.derived or "::tests" in f.path:
+            continue
+        if not (f.crate in ("nitrogql_checker",) or f.path.startswith(("nitrogql_semantics::direct_fields", "nitrogql_semantics::definition_map",
+                                                                       "nitrogql_semantics::type_system_utils"))):
+            continue
+        acc = f.nodes()
+        for i, (c, _) in enumerate(acc):
+            if c.get("k") not in ("MethodCall", "Call") or call_name(c) not in srcs:
+                continue
+            n += 1
+            cur, ci = c, i
+            chain = []
+            verdict = "order-free"
+            while True:
+                pi = acc[ci][1]
+                if pi < 0:
+                    break
+                p = acc[pi][0]
+                if p.get("k") == "MethodCall" and p.get("recv") is cur:
+                    chain.append(p["method"])
+                    if p["method"] in ORDER_DEP:
+                        verdict = p["method"]
+                        break
+                    if p["method"] in ORDER_FREE_CONSUMERS or p["method"] in ("collect", "for_each", "count"):
+                        break
+                    cur, ci = p, pi
+                    continue
+                if p.get("k") in ("AddrOf", "DropTemps", "Use"):
+                    cur, ci = p, pi
+                    continue
+                break
+            key = "%s:%s" % (short(f.path), "/".join(chain) or "iter")
+            R.check("R17-c", key, verdict == "order-free", "schema-order iteration consumed order-free (%s)" % ("/".join(chain) or "loop"),
+                    "%s consumes an iteration over the schema's definitions with order-dependent `%s`: permuting type definitions "
+                    "(or schema files) can change the check verdict" % (f.path, verdict), loc=f.loc())
+    R.floor("R17-c", "schema-order iterations in the checker", n, 1)
+
+
+RULES = [("R17-a", r17a), ("R17-b", r17b), ("R17-c", r17c)]
 EXPLANATION = (
     "Hash-seed independence, for all inputs and all seeds: every expression in the workspace that exposes the iteration order "
     "of a std HashMap/HashSet (iter/keys/values/drain/retain/into_iter, for-loops, Debug formatting; resolved by receiver type, "
@@ -243,7 +293,8 @@ EXPLANATION = (
     "aggregate, sorted before any other use, a loop body that only inserts into unordered containers, or enclosed in a function "
     "from which order cannot escape; wrappers that return the iterator are followed to their callers. Anything else must be in "
     "the allow table with a reason. R17-b: no call to time, RNG, thread or pointer-formatting APIs anywhere in the workspace. "
-    "Not decided: the permutation clause (re-ordering definitions/files) and directory enumeration order.")
+    "R17-c (one structural piece of the permutation clause): in the checker no iteration in schema-definition order ends in an "
+    "order-dependent consumer (find/position/next/take/fold...). Not decided: the rest of the permutation clause and directory enumeration order.")
 ASSUMPTIONS = ["third-party collections are deterministic given insertion order: indexmap, itertools::unique, lru, serde_yaml::Mapping",
                "glob/directory enumeration order is OS-defined, not process-random (outside the claim)",
                "rustc type checker resolves receiver types (facts)"]
